@@ -1,1 +1,177 @@
-//! in-daemon verification module (event_verif): child of the daemon module, sees its private items.
+//! in-daemon verification module (event_verif): child of the daemon's `event` module, sees its private items.
+//!
+//! `Neighbor` is a shadow of the export side of `PeerSession`: it performs, with the
+//! daemon's own functions (ExportMap, PendingTx, GroupedSink, process_nlri_change,
+//! TableManager::register_peer, collect_loc_rib_paths_limited), the steps that
+//! `on_established`, `handle_prefix_update` and `do_route_refresh` perform, in the same
+//! order, but lets the harness decide when queued changes are delivered and when the
+//! pending updates are flushed.
+use super::export::*;
+use super::*;
+
+pub(crate) struct NeighborParams {
+    pub(crate) remote_addr: IpAddr,
+    pub(crate) role: table::PeerRole,
+    pub(crate) local_asn: u32,
+    pub(crate) local_addr: IpAddr,
+    pub(crate) confederation_id: u32,
+    pub(crate) cluster_id: Option<Ipv4Addr>,
+    pub(crate) families: Vec<Family>,
+    /// add-path send-max per family (1 = no add-path)
+    pub(crate) effective_max: usize,
+    pub(crate) export_policy: Option<Arc<table::PolicyAssignment>>,
+}
+
+pub(crate) struct Neighbor {
+    pub(crate) p: NeighborParams,
+    ctx: PeerExportContext,
+    export_map: ExportMap,
+    pending: FnvHashMap<Family, crate::peer_tx::PendingTx>,
+    rx: Option<mpsc::UnboundedReceiver<ToPeerEvent>>,
+    pub(crate) delivered: u64,
+}
+
+impl Neighbor {
+    /// `on_established`: export map, pending queues, registration + initial dump under the shard locks
+    pub(crate) fn establish(tables: &TableHandle, p: NeighborParams) -> Neighbor {
+        let ctx = PeerExportContext { role: p.role, local_asn: p.local_asn, local_addr: p.local_addr, link_addr: None, confederation_id: p.confederation_id };
+        let mut pending: FnvHashMap<Family, crate::peer_tx::PendingTx> = FnvHashMap::default();
+        for f in &p.families {
+            pending.insert(*f, crate::peer_tx::PendingTx::new(p.effective_max > 1));
+        }
+        let mut export_map = ExportMap::new(p.families.iter().copied().filter(|_| p.effective_max > 1));
+        let export_policy = p.export_policy.clone().or_else(|| tables.export_policy.load_full());
+        let rpki = tables.rpki.read().unwrap();
+        let families = p.families.clone();
+        let rx = tables.register_peer(p.remote_addr, FnvHashSet::default(), |rtable| {
+            for f in &families {
+                let addpath_tx = pending.get(f).map(|x| x.addpath_tx()).unwrap_or(false);
+                let mut sink = GroupedSink::new(addpath_tx);
+                let walk_max = if p.effective_max > 1 { usize::MAX } else { 1 };
+                for change in rtable.collect_loc_rib_paths_limited(f, walk_max) {
+                    process_nlri_change(&change, p.effective_max, p.remote_addr, &mut export_map, &mut sink, &ctx, export_policy.as_deref(), p.cluster_id, Some(&rpki), None, None);
+                }
+                if let Some(pd) = pending.get_mut(f) {
+                    pd.buffer_messages(sink.into_messages(*f));
+                }
+            }
+        });
+        drop(rpki);
+        for f in &p.families {
+            pending.get_mut(f).unwrap().buffer_messages(vec![bgp::Message::eor(*f)]);
+        }
+        Neighbor { p, ctx, export_map, pending, rx: Some(rx), delivered: 0 }
+    }
+
+    /// number of change events waiting in the channel cannot be read without consuming; deliver up to `n`
+    pub(crate) fn deliver(&mut self, tables: &TableHandle, n: usize) -> usize {
+        let mut done = 0;
+        while done < n {
+            let Some(rx) = self.rx.as_mut() else { break };
+            let Ok(ev) = rx.try_recv() else { break };
+            done += 1;
+            match ev {
+                ToPeerEvent::NlriChange(update) => {
+                    let Some(pending) = self.pending.get_mut(&update.family) else { continue };
+                    let export_policy = self.p.export_policy.clone().or_else(|| tables.export_policy.load_full());
+                    let rpki = export_policy.as_deref().filter(|p| p.needs_rpki).map(|_| tables.rpki.read().unwrap());
+                    process_nlri_change(&update, self.p.effective_max, self.p.remote_addr, &mut self.export_map, pending, &self.ctx, export_policy.as_deref(), self.p.cluster_id, rpki.as_deref(), None, None);
+                    self.delivered += 1;
+                }
+                ToPeerEvent::SoftResetOut => {
+                    let fams = self.p.families.clone();
+                    for f in fams {
+                        self.route_refresh(tables, f);
+                    }
+                }
+                ToPeerEvent::RouteRefreshFamilies(fams) => {
+                    for f in fams {
+                        self.route_refresh(tables, f);
+                    }
+                }
+            }
+        }
+        done
+    }
+
+    /// `do_route_refresh`
+    pub(crate) fn route_refresh(&mut self, tables: &TableHandle, family: Family) {
+        if !self.pending.contains_key(&family) {
+            return;
+        }
+        let export_policy = self.p.export_policy.clone().or_else(|| tables.export_policy.load_full());
+        let walk_max = if self.p.effective_max > 1 { usize::MAX } else { 1 };
+        let changes = tables.collect_loc_rib_paths_limited(family, walk_max);
+        let rpki = tables.rpki.read().unwrap();
+        for change in &changes {
+            let Some(pending) = self.pending.get_mut(&change.family) else { continue };
+            // (mirrors do_route_refresh, including its add-path re-advertisement step)
+            let sent_before = if self.p.effective_max > 1 {
+                let ids = self.export_map.sent_path_ids(change.family, change.dest_id);
+                for pid in &ids {
+                    self.export_map.mark_withdrawn(change.family, change.dest_id, *pid);
+                }
+                ids
+            } else {
+                Default::default()
+            };
+            process_nlri_change(change, self.p.effective_max, self.p.remote_addr, &mut self.export_map, pending, &self.ctx, export_policy.as_deref(), self.p.cluster_id, Some(&rpki), None, None);
+            if !sent_before.is_empty() {
+                let sent_now = self.export_map.sent_path_ids(change.family, change.dest_id);
+                for pid in sent_before.difference(&sent_now) {
+                    pending.unreach(change.dest_id, change.net.clone(), *pid);
+                }
+            }
+        }
+        self.pending.get_mut(&family).unwrap().schedule_eor();
+    }
+
+    /// the socket is writable: everything pending becomes messages
+    pub(crate) fn flush(&mut self) -> Vec<bgp::Message> {
+        let mut out = Vec::new();
+        let fams = self.p.families.clone();
+        for f in fams {
+            if let Some(p) = self.pending.get_mut(&f) {
+                out.extend(p.drain_messages(f));
+            }
+        }
+        out
+    }
+
+    pub(crate) fn set_policy(&mut self, p: Option<Arc<table::PolicyAssignment>>) {
+        self.p.export_policy = p;
+    }
+
+    /// session ends: the daemon unregisters the peer from every shard
+    pub(crate) fn close(&mut self, tables: &TableHandle) {
+        self.rx = None;
+        tables.unregister_peer(self.p.remote_addr, &[], &[]);
+    }
+}
+
+/// one (source path set, receiver) evaluation of the export pipeline, captured instead of queued
+pub(crate) struct Captured {
+    pub(crate) reach: Vec<(packet::Nlri, u32, Option<bgp::Nexthop>, Arc<Vec<packet::Attribute>>)>,
+    pub(crate) unreach: Vec<(packet::Nlri, u32)>,
+}
+
+impl NlriSink for Captured {
+    fn reach(&mut self, _dest_id: u32, nlri: packet::Nlri, path_id: u32, nexthop: Option<bgp::Nexthop>, attr: Arc<Vec<packet::Attribute>>, _source: &Arc<table::Source>) {
+        self.reach.push((nlri, path_id, nexthop, attr));
+    }
+    fn unreach(&mut self, _dest_id: u32, nlri: packet::Nlri, path_id: u32) {
+        self.unreach.push((nlri, path_id));
+    }
+}
+
+pub(crate) fn export_once(update: &table::NlriChange, p: &NeighborParams) -> Captured {
+    let ctx = PeerExportContext { role: p.role, local_asn: p.local_asn, local_addr: p.local_addr, link_addr: None, confederation_id: p.confederation_id };
+    let mut em = ExportMap::new(p.families.iter().copied().filter(|_| p.effective_max > 1));
+    let mut sink = Captured { reach: Vec::new(), unreach: Vec::new() };
+    process_nlri_change(update, p.effective_max, p.remote_addr, &mut em, &mut sink, &ctx, p.export_policy.as_deref(), p.cluster_id, None, None, None);
+    sink
+}
+
+pub(crate) fn as_loop(attr: &Arc<Vec<bgp::Attribute>>, local_asn: u32, confederation_id: u32) -> bool {
+    is_as_loop(attr, local_asn, confederation_id)
+}
